@@ -4,7 +4,7 @@ import srvprops
 
 PROP = "C03"
 THEOREMS = ["C03_reachable_wf", "C03_decision_is_reported_list", "C03_add_present", "C03_remove_absent",
-            "C03_total_counts_reported", "C03_lists_independent", "C03_delivery_uses_read_acl"]
+            "C03_total_counts_reported", "C03_lists_independent", "C03_delivery_uses_read_acl", "C03_conc_acl_report_is_current", "C03_conc_set_acl_exact", "C03_conc_join_respects_list", "C03_conc_targets_cache", "C03_source_segment_layout"]
 
 
 def emptied_list_histories(r, thorough):
